@@ -164,6 +164,9 @@ class Trace:
             elif p == "block_handler::extending_splice":
                 tr.events.append(("splice", call.args, s.copy(), call.site))
                 s.ghost[("inj", "spliced")] = True
+                r_ = call.args[1]
+                if isinstance(r_, StructV) and len(r_.fields) == 2 and isinstance(r_.fields[0], IntV):
+                    s.ghost["splice_range"] = r_.fields[0].aff
             elif p == "core::cmp::min" and call.ctx.body["path"].startswith("block_handler::"):
                 tr.events.append(("min", call.args, s.copy(), call.site))
                 s.ghost["min_args"] = tuple(call.args)
